@@ -36,6 +36,7 @@ def main():
         mods = core.prop_modules(prop)
         rc, log = core.run(['lake', 'build'] + mods, cwd=core.LEAN, timeout=7200) if mods else (0, '')
         broken_build = None
+        crash = None
         if rc != 0:
             ff = failing_files(log)
             # a failure that involves a file regenerated from /repo (or a theorem file that depends on
@@ -80,11 +81,25 @@ def main():
                     if f.endswith('.json'):
                         mod.replay(ctx, os.path.join('corpus', prop, f))
                         ctx.count('corpus-replayed')
-            mod.run(ctx)
+            try:
+                mod.run(ctx)
+            except core.MachineryError:
+                raise
+            except Exception:
+                # The exploration crashed.  When a proof obligation is already broken (e.g. a definition regenerated
+                # from the source no longer equals the model) or violations were already reported, the crash is the
+                # changed implementation showing through the harness, not a fault of the machinery: it becomes part
+                # of the violation (exit 1).  With all obligations discharged and no violation it stays exit 2.
+                if not (ctx.undischarged or ctx.violations):
+                    raise
+                crash = traceback.format_exc()
+                print('exploration stopped by an exception after a broken obligation / a violation:')
+                print(crash[-1200:])
+                ctx.notes.append('exploration stopped by an exception: ' + crash[-1500:])
         # a proof obligation that no longer checks and no failing input found by the search above
         if ctx.undischarged and ctx.violations == 0:
             ctx.violation('proof obligations of %s no longer check: %s' % (prop, ctx.undischarged[:5]),
-                          {'undischarged': ctx.undischarged, 'build': broken_build},
+                          {'undischarged': ctx.undischarged, 'build': broken_build, 'exploration_crash': crash},
                           signature={'kind': 'obligation'}, no_failing_input=True)
         ctx.write_evidence()
         print('%s tier=%s seed=%d evaluations=%d distinct_nontrivial=%d theorems=%d/%d violations=%d known=%d wall=%.1fs' % (
